@@ -212,6 +212,15 @@ func (k *Keeper) DeleteAccount(ctx sdk.Context, addr common.Address) error {
 		return errorsmod.Wrapf(types.ErrInvalidAccount, "vesting account %s cannot be destructed", addr)
 	}
 
+	// a contract can be a delegator (through the staking precompile). Staking pays a matured unbonding
+	// delegation back with bank.UndelegateCoins, which debits the not-bonded pool and then fails for a delegator
+	// without an auth account - in the end blocker nothing rolls that debit back. An account that still has
+	// delegations or unbonding delegations cannot be removed.
+	if len(k.stakingKeeper.GetUnbondingDelegations(ctx, cosmosAddr, 1)) > 0 ||
+		len(k.stakingKeeper.GetDelegatorDelegations(ctx, cosmosAddr, 1)) > 0 {
+		return errorsmod.Wrapf(types.ErrInvalidAccount, "account %s has staking delegations and cannot be destructed", addr)
+	}
+
 	// clear balance
 	if err := k.SetBalance(ctx, addr, new(big.Int)); err != nil {
 		return err
